@@ -30,21 +30,21 @@ inductive SVal where
   | zero
   | tok (idx : Nat) (ty : Nat)
   | err (idx : Nat) (expected : List Int)
-  | node (p : Nat) (kids : List SVal)
+  | node (rule : Int) (kids : List SVal)   -- result of a user action of that rule
   | list (xs : List SVal)
   deriving Repr, Inhabited
 
-/-- The harness' `Discard()` methods: tokens of even type and nodes of odd production. -/
+/-- The harness' `Discard()` methods: tokens of even type and nodes with an odd number of children. -/
 def SVal.discard : SVal → Bool
   | .tok _ ty => ty % 2 == 0
-  | .node p _ => p % 2 == 1
+  | .node _ kids => kids.length % 2 == 1
   | _ => false
 
 def SVal.elems : SVal → List SVal
   | .list xs => xs
   | _ => []
 
-def combine (k : Kind) (p : Nat) (kids : List SVal) : SVal :=
+def combine (k : Kind) (p : Int) (kids : List SVal) : SVal :=
   match k, kids with
   | .user, _ => .node p kids
   | .sprime, _ => .node p kids
@@ -62,14 +62,14 @@ def combine (k : Kind) (p : Nat) (kids : List SVal) : SVal :=
   | _, _ => .zero
 
 mutual
-def interp (kinds : Array Nat) : Val → SVal
+def interp (kinds : Array Nat) (rules : Array Int) : Val → SVal
   | .nil => .zero
   | .tok i ty => .tok i ty
   | .err i _ ex => .err i ex
-  | .node p kids => combine (Kind.ofCode (kinds[p]?.getD 0)) p (interpList kinds kids)
-def interpList (kinds : Array Nat) : List Val → List SVal
+  | .node p kids => combine (Kind.ofCode (kinds[p]?.getD 0)) (rules[p]?.getD (-1)) (interpList kinds rules kids)
+def interpList (kinds : Array Nat) (rules : Array Int) : List Val → List SVal
   | [] => []
-  | v :: vs => interp kinds v :: interpList kinds vs
+  | v :: vs => interp kinds rules v :: interpList kinds rules vs
 end
 
 mutual
@@ -77,7 +77,7 @@ def SVal.render : SVal → String
   | .zero => "_"
   | .tok i _ => "t" ++ toString i
   | .err i ex => "E" ++ toString i ++ "{" ++ ",".intercalate (ex.map toString) ++ "}"
-  | .node p kids => "(p" ++ toString p ++ renderList kids ++ ")"
+  | .node r kids => "(r" ++ toString r ++ renderList kids ++ ")"
   | .list xs => "[" ++ (renderList xs).drop 1 ++ "]"
 def renderList : List SVal → String
   | [] => ""
